@@ -21,8 +21,10 @@ const ARCSEC: f64 = PI / 180.0 / 3600.0;
 
 /// tolerance (seconds of time) of the low-accuracy solar theory as a function of the distance from J2000 in centuries
 fn sun_tol_s(t_cy: f64) -> f64 {
-  // calibrated with >= 2x margin over the measured maxima (see DESIGN C05): 864 s within +-1.5 cy, growing with T^2
-  1800.0 + 120.0 * t_cy * t_cy
+  // calibrated against the measured maxima of |Meeus - library| over every term (`--aux sunscan`): 925 s within +-10 cy,
+  // 1115 s at -30 cy, 1405 s at +30 cy; about 2x margin everywhere, so a drift of the library's Sun of more than about
+  // 20 minutes at +-3000 years (or 15 minutes today) is outside
+  1800.0 + 1.0 * t_cy * t_cy
 }
 /// tolerance of the Meeus new-moon series against the library's precise conjunction (TT vs TT)
 fn moon_tol_s(t_cy: f64) -> f64 {
@@ -275,7 +277,7 @@ impl Prop for C05 {
   }
   fn meta(&self, env: &Env) -> Meta {
     Meta {
-      rule: format!("Sub-checks: `sun` every term (24 x 251) of 1900..2150 through the UT chain (library instant UTC+8 -> UT -> TT with the Espenak-Meeus Delta T) and {} through TT (library's own Delta T, so Delta T models do not enter): Meeus ch.25 apparent longitude at that instant equals 270+15k deg within the theory's accuracy (1800 s + 120 s/cy^2), and the library's own longitude series is at the target within 2 arcsec; `moon` every lunation of 1900..2150 (with civil-day agreement) and {}: library precise conjunction vs Meeus ch.49 (25 periodic + 14 planetary terms) within 60 s + 6 s/cy^2; `pathterm` every term 1961..9999 (192,936): calendar-making day == UTC+8 civil day of the precise instant; `pathmoon` every lunation 1961..8000: first day == civil day of the precise conjunction; `inverse_sun`/`inverse_moon`: all exact multiples of pi/12 resp. 2pi over +-10,000 years and proptest f64 targets: |series(solver(w)) - w| <= 1 arcsec; `dt`: Delta T finite with steps < 6 s per 0.01 y over -4000..10000 ({}); `pure`: proptest queries (term instants, Delta T, day-level and precise solvers) answered on a thread with a long random history are bit-identical to the same query alone on a brand-new thread. Non-trivial: events within 20 (30) minutes of local midnight; exact-multiple targets; Delta T table joins.", env.tier.pick("every term of every 10th year in -1000..5000", "every term of every year in -1000..5000"), env.tier.pick("every 7th lunation of -1000..5000", "every lunation of -1000..5000"), env.tier.pick("every 0.05 y plus +-0.5 y around each table join at 0.01 y", "every 0.01 y")),
+      rule: format!("Sub-checks: `sun` every term (24 x 251) of 1900..2150 through the UT chain (library instant UTC+8 -> UT -> TT with the Espenak-Meeus Delta T) and {} through TT (library's own Delta T, so Delta T models do not enter): Meeus ch.25 apparent longitude at that instant equals 270+15k deg within the theory's accuracy (1800 s + 1 s/cy^2, about twice the measured maximum over every term of -1000..5000), and the library's own longitude series is at the target within 2 arcsec; `moon` every lunation of 1900..2150 (with civil-day agreement) and {}: library precise conjunction vs Meeus ch.49 (25 periodic + 14 planetary terms) within 60 s + 6 s/cy^2; `pathterm` every term 1961..9999 (192,936): calendar-making day == UTC+8 civil day of the precise instant; `pathmoon` every lunation 1961..8000: first day == civil day of the precise conjunction; `inverse_sun`/`inverse_moon`: all exact multiples of pi/12 resp. 2pi over +-10,000 years and proptest f64 targets: |series(solver(w)) - w| <= 1 arcsec; `dt`: Delta T finite with steps < 6 s per 0.01 y over -4000..10000 ({}); `pure`: proptest queries (term instants, Delta T, day-level and precise solvers) answered on a thread with a long random history are bit-identical to the same query alone on a brand-new thread. Non-trivial: events within 20 (30) minutes of local midnight; exact-multiple targets; Delta T table joins.", env.tier.pick("every term of every 10th year in -1000..5000", "every term of every year in -1000..5000"), env.tier.pick("every 7th lunation of -1000..5000", "every lunation of -1000..5000"), env.tier.pick("every 0.05 y plus +-0.5 y around each table join at 0.01 y", "every 0.01 y")),
       assumptions: vec![
         "Independent theory: Meeus ch. 25 low-accuracy Sun (0.01 deg), ch. 49 new moons, Espenak-Meeus Delta T; a perturbation of the library below that accuracy (about 15 min Sun, 40 s Moon) is invisible to `sun`/`moon` and only seen by `pathterm`/`pathmoon` when it moves an event across midnight on one path only".into(),
         "Beyond AD 8000 the truncated lunar solver leaves its guard band; the property excludes those lunations from day agreement".into(),
@@ -405,6 +407,34 @@ impl Prop for C05 {
   }
   fn aux(&self, _env: &Env, name: &str, _arg: &str) -> i32 {
     // calibration aid: maximum lunar inverse-solver residual per millennium over a dense grid of targets
+    if name == "sunscan" {
+      // calibration aid: maximum |theory - target| in seconds per 250 years for both modes
+      for mode in [0i64, 1] {
+        let (lo, hi) = if mode == 0 { (1900i64, 2150i64) } else { (-1000, 5000) };
+        let mut y = lo;
+        while y <= hi {
+          let mut mx = 0.0f64;
+          for yy in y..(y + 250).min(hi + 1) {
+            for i in 0..24 {
+              let t = SolarTerm::from_index(yy as isize, i as isize);
+              let jd_local = t.get_julian_day().get_day();
+              let yf = 2000.0 + (jd_local - 2451545.0) / 365.2425;
+              let dt = if mode == 0 { astro::delta_t(yf) } else { U::dt_calc(yf) };
+              let jde = jd_local - 8.0 / 24.0 + dt / 86400.0;
+              let target = (270.0 + 15.0 * i as f64).rem_euclid(360.0);
+              let mut diff = astro::sun_lon(jde) - target;
+              if diff > 180.0 { diff -= 360.0; }
+              if diff < -180.0 { diff += 360.0; }
+              let secs = (diff / (360.0 / 365.2422) * 86400.0).abs();
+              if secs > mx { mx = secs; }
+            }
+          }
+          println!("mode {} years {}..{}: max {:.0} s (tolerance now {:.0} s)", mode, y, y + 249, mx, sun_tol_s((y as f64 + 125.0 - 2000.0) / 100.0));
+          y += 250;
+        }
+      }
+      return 0;
+    }
     if name == "moonscan" {
       let mut y = -8000.0f64;
       while y < 10000.0 {
